@@ -24,6 +24,7 @@ def run(ctx, rep):
     runloop.r12q(ctx, rep)
     runloop.r12r(ctx, rep)
     runloop.r12s(ctx, rep)
+    runloop.r13g(ctx, rep, rule="R12t")
     from . import prelude
     prelude.r12n(ctx, rep)
     runloop.r07i(ctx, rep, rule="R12m")
